@@ -440,6 +440,9 @@ class Driver:
             late = rng.random() < 0.3
             if late:
                 tm = period * rng.choice([3, 10, 60]) if not grid else GRID * rng.choice([4, 64, 200])
+                if rng.random() < 0.1:
+                    tm = rng.choice([20000, 70000]) * 1000000        # the period's clock already shows many hours
+                    self.ev("period-clock-of-many-hours")
                 self.ev("late-first-iteration")
             style = rng.choice(["fixed", "fixed", "jitter", "random", "land"])
             for j in range(rng.choice([5, 20, 60, 150])):
